@@ -128,11 +128,11 @@ class StrFn:
     def poly(self, n):
         return to_poly(n, self.leaf)
 
-    def buffer_of(self, n):
+    def buffer_of(self, n, depth=0):
         """Destination expression -> (buffer key, element offset Poly). Buffer key: 'this._buffer' or local did."""
         n = std_unwrap(n)
         if n.kind == "BinaryOperator" and n.op == "+" and (n.get("t") or "").endswith("*"):
-            b = self.buffer_of(n.children[0])
+            b = self.buffer_of(n.children[0], depth)
             off = self.poly(n.children[1])
             if b is None or off is None:
                 return None
@@ -141,6 +141,16 @@ class StrFn:
         if p == ("this", "_buffer"):
             return ("this._buffer", Poly.const(0))
         if n.kind == "DeclRefExpr" and n.get("local") and n.get("dk") == "Var":
+            # a once-initialised local that merely names another buffer expression (the field, another local plus an offset:
+            # `Char *storage = _allocate_storage();`, `Char *const terminator = _buffer + size;`) stands for it
+            ini = self.inits.get(n.d["d"])
+            if ini is not None and not RA._reassigned(self.fn, n.d["d"]) and depth < 6:
+                iv = std_unwrap(ini)
+                if not (iv.is_call() and iv.callee and iv.callee["n"] == "allocate") and not (
+                        iv.kind in ("CStyleCastExpr", "CXXStaticCastExpr", "CXXReinterpretCastExpr")):
+                    b = self.buffer_of(iv, depth + 1)
+                    if b is not None:
+                        return b
             return (n.d["d"], Poly.const(0))
         return None
 
@@ -260,12 +270,19 @@ def check_string_buffers(ctx, unit, tag="", only_chart=None):
             term_idx = {}
             for n in sorted([x for x in f.events() if x.kind == "BinaryOperator" and x.op == "="], key=lambda x: x.loc):
                 l = n.children[0].strip()
-                if l.kind != "ArraySubscriptExpr":
+                if l.kind == "UnaryOperator" and l.op == "*" and l.children:
+                    # `*p = v` writes element 0 behind p (p = buffer + k: element k)
+                    b = sf.buffer_of(l.children[0])
+                    idx = Poly.const(0)
+                    sub_node = l.children[0]
+                elif l.kind == "ArraySubscriptExpr":
+                    b = sf.buffer_of(l.children[0])
+                    idx = sf.poly(l.children[1])
+                    sub_node = l.children[1]
+                else:
                     continue
-                b = sf.buffer_of(l.children[0])
                 if b is None or b[0] not in allocs:
                     continue
-                idx = sf.poly(l.children[1])
                 if idx is None:
                     continue
                 k += 1
@@ -273,10 +290,10 @@ def check_string_buffers(ctx, unit, tag="", only_chart=None):
                 need = Poly.sym("S") * (b[1] + idx + Poly.const(1))
                 ok = (E - need).nonneg(ge_one=("S",))
                 # loop-bounded fill writes (i < size): index symbol is a loop variable bounded by a length
-                ctx.inst("B2.write-within-allocation", "%s: element write #%d%s" % (f.sig, k, tag), ok or _loop_bounded(f, l.children[1], sf, E), n.loc,
+                ctx.inst("B2.write-within-allocation", "%s: element write #%d%s" % (f.sig, k, tag), ok or _loop_bounded(f, sub_node, sf, E), n.loc,
                          "writes element %s (bytes up to %s) of a %s-byte allocation" % (idx, need, E), f)
                 if n.children[1].strip().cv() == 0:
-                    term_idx.setdefault(b[0], []).append((idx, n))
+                    term_idx.setdefault(b[0], []).append((b[1] + idx, n))
             # installation
             inst_bufs = []
             for n in f.events():
@@ -390,7 +407,7 @@ def check_views(ctx, unit):
                 idx = n.children[1]
                 base = path(n.children[0])
                 facts = flow.facts_at(f, n.id)
-                lens_equal = any(_eq_lengths(c, t, f) for c, t in facts)
+                lens_equal = any(_eq_lengths(c, t, f) for c, t in facts) or _lengths_equal_on_all_paths(f, n)
                 owners = {base[:-1]} | ({("this",)} if lens_equal else set())
                 key = tuple(sorted(owners))
                 if key not in runs:
@@ -675,6 +692,62 @@ def _eq_lengths(cond, truth, f=None, depth=0):
     return False
 
 
+def _lengths_equal_on_all_paths(f, at):
+    """The two views' lengths are known equal on every path that reaches `at`.  Neither length changes inside a member, so
+    equality is a monotone fact: it is established when a comparison of the two lengths is decided equal -- directly, or
+    through a bool local that at that moment still holds the outcome of such a comparison (the local may be reused for
+    something else later: `bool equal = a == b; for(...; equal && ...; ) equal = x[i] == y[i];`)."""
+    def is_len_eq(x):
+        x = x.strip()
+        neg = False
+        while x.kind == "UnaryOperator" and x.op == "!":
+            x, neg = x.children[0].strip(), not neg
+        if x.kind == "BinaryOperator" and x.op in ("==", "!="):
+            a, b = path(x.children[0]), path(x.children[1])
+            if a and b and a[-1] == "_length" and b[-1] == "_length" and a != b:
+                return (x.op == "==") != neg
+        return None
+    seen_at = []
+
+    def transfer(n, st):
+        lens, holders = st
+        if n.id == at.id:
+            seen_at.append(lens)
+        if n.kind == "DeclStmt":
+            for d in n.get("decls", []):
+                if "init" in d:
+                    r = is_len_eq(f.node(d["init"]))
+                    holders = (holders | {(d["d"], r)}) if r is not None else frozenset(h for h in holders if h[0] != d["d"])
+            return [(lens, holders)]
+        if n.kind == "BinaryOperator" and n.op == "=" and n.children[0].strip().kind == "DeclRefExpr":
+            d = n.children[0].strip().d["d"]
+            r = is_len_eq(n.children[1])
+            holders = frozenset(h for h in holders if h[0] != d)
+            if r is not None:
+                holders = holders | {(d, r)}
+            return [(lens, holders)]
+        return [st]
+
+    def refine(cond, truth, st):
+        lens, holders = st
+        c, t = cond.strip(), truth
+        while c.kind == "UnaryOperator" and c.op == "!":
+            c, t = c.children[0].strip(), not t
+        r = is_len_eq(c)
+        if r is not None and r == t:
+            return [(True, holders)]
+        if c.kind == "DeclRefExpr":
+            for d, sense in holders:
+                if d == c.d["d"] and sense == t:
+                    return [(True, holders)]
+        return [st]
+    try:
+        flow.run(f, [(False, frozenset())], transfer, refine, limit=20000)
+    except flow.TooManyStates:
+        return False
+    return bool(seen_at) and all(seen_at)
+
+
 # ---- B6: numeric accumulation ------------------------------------------------------------------
 
 def check_accumulation(ctx, rule, fns, label=None, strict_unsigned=False):
@@ -770,7 +843,7 @@ def check_free_after_copies(ctx, unit, rule="O.free-after-copies"):
     the appended view may alias the old buffer (s += s, s += s.sub_string(..)).  A release is a direct
     free/deallocate of this->_buffer or a call, on *this, of a member that may release it (resize(), ...)."""
     ctx.rule(rule, "in basic_string mutators no memcpy can execute after the old buffer was released, directly or through a "
-             "member called on *this (sources may alias the old buffer)", 3)
+             "member called on *this (sources may alias the old buffer)", 1)
     for rec in recs_of(unit, STR):
         fns = cls_fns(unit, rec["qn"])
 
@@ -778,6 +851,8 @@ def check_free_after_copies(ctx, unit, rule="O.free-after-copies"):
             return [n for n in f.events() if n.kind == "CXXMemberCallExpr" and n.callee and n.callee["n"] in ("free", "deallocate")
                     and n.args and path(n.args[0]) == ("this", "_buffer")]
         may_free = {f.did for f in fns if direct_frees(f) and f.kind != "dtor"}
+        if not may_free:
+            raise AnalysisBroken("anchor vanished: no mutator of %s releases this->_buffer" % rec["qn"])
         changed = True
         while changed:
             changed = False
@@ -808,3 +883,30 @@ def check_free_after_copies(ctx, unit, rule="O.free-after-copies"):
                      ("memcpy at %s can run after the old buffer was released at %s (%s)" % (
                          bad[0][0].loc, bad[0][1].loc, bad[0][1].callee["n"])) if bad else
                      "%d copies, all before the release of the old buffer" % len(cps), f)
+
+
+def check_byte_counts(ctx, unit, rule="B2.count-in-bytes", chart="char", tag=""):
+    """Every byte-counted C primitive (memcmp, memcpy, memmove, memset, memchr) that a member of basic_string_view or
+    basic_string applies to its characters is given a count that is a multiple of sizeof(Char): a count in characters compares
+    or copies only the first 1/sizeof(Char) of a wide string."""
+    ctx.rule(rule, "every byte count that a member of basic_string / basic_string_view hands to memcmp / memcpy / memmove / memset / "
+             "memchr over its characters carries the factor sizeof(Char) (symbolic): a count in characters covers only part "
+             "of a wide string", 6)
+    PRIMS = ("memcmp", "__builtin_memcmp", "memcpy", "__builtin_memcpy", "memmove", "__builtin_memmove", "memset", "__builtin_memset",
+             "memchr", "__builtin_memchr", "bcmp")
+    for cls in (VIEW, STR):
+        for rec in recs_of(unit, cls):
+            if chart not in rec["qn"]:
+                continue
+            for f in cls_fns(unit, rec["qn"]):
+                sf = StrFn(f, chart)
+                k = 0
+                for n in sorted([x for x in f.events() if x.is_call() and x.callee and x.callee["n"] in PRIMS and len(x.args) == 3],
+                                key=lambda x: x.loc):
+                    k += 1
+                    cnt = sf.poly(n.args[2])
+                    ok = cnt is not None and all("S" in mono for mono in cnt.t)
+                    ctx.inst(rule, "%s: %s #%d%s" % (f.sig, n.callee["n"], k, tag), ok, n.loc,
+                             ("count %s: every term carries sizeof(Char)" % cnt) if ok else
+                             "count %s is not a multiple of sizeof(Char): for a wide character type only part of the characters is covered"
+                             % (cnt if cnt is not None else canon(n.args[2]).split("#")[0][:60]), f)
